@@ -415,9 +415,29 @@ def dbg(msg):
         print("[%s] %s" % (time.strftime("%H:%M:%S"), msg), file=sys.stderr, flush=True)
 
 
+def weak_hash_events(ctx):
+    """Run in the weak-hash interpreter (harness/weakhash.py): random histories on classes whose bases - the keys of the class
+    registry - and members share a few hash values."""
+    rnd = util.rng(ctx, 222)
+    cl = antichains(rnd, True)
+    ms = mesh_bases(rnd, True)
+    groups = []
+    for g in range(2):
+        bs = [rnd.choice(cl), rnd.choice(cl), rnd.choice(ms)]
+        while bs[1] == bs[0]:
+            bs[1] = rnd.choice(cl)
+        real = Real(bs)
+        events = []
+        for _ in range(8):
+            events += random_history(rnd, bs, real, 5, 25)
+        groups.append({"bases": bs, "events": events})
+    return groups
+
+
 def run(ctx):
     quick = ctx.tier == "quick"
     rnd = util.rng(ctx, 2)
+    weak = util.weak_hash_start(ctx, "c02", "weak_hash_events")
     cl = antichains(rnd, quick)
     ms = mesh_bases(rnd, quick)
     ctx.note("bases", {"classical": len(cl), "mesh": len(ms)})
@@ -522,6 +542,11 @@ def run(ctx):
     if ninter == 0:
         ctx.drift("no call could be interrupted inside permuta/perm_sets/permset.py (file moved?): interrupted histories not exercised")
     groups.append(long_member_events(ctx, rnd, quick))
+    for doc in util.weak_hash_finish(ctx, weak, "c02"):
+        bs = doc["bases"]
+        for b in bs:          # (JSON turned the tuples into lists)
+            b["elems"] = [tuple(e) if not b["mesh"] else (tuple(e[0]), tuple(map(tuple, e[1]))) for e in b["elems"]]
+        groups.append((bs, doc["events"]))
     dbg("histories recorded")
     def validate_group(g):
         bs, events = g
